@@ -1135,6 +1135,15 @@ SideSymmetric = b"S"''', '''SideA, SideB, SideSymmetric = (bytes([c]) for c in b
       base="seeded_neutral/N20", tests="fail", note="shared offset helper called with +pw for the unblinding"),
     B("n24-double-uses-sum-for-G", ["C12"], [(ED, "    y2_minus_x2 = (y_squared - x_squared) % Q           # G\n", "    y2_minus_x2 = (y_squared + x_squared) % Q           # G\n")],
       base="seeded_neutral/N24", tests="fail", note="descriptive-name doubling formula with a sign error"),
+    # ---- N29 (root helper returning (x, xx), sign test on the even root, on-curve test as x*x == xx)
+    B("n29-sign-test-inverted", ["C15", "C05"], [(ED, "    if unclamped & (1<<255):\n        if x == 0:", "    if not unclamped & (1<<255):\n        if x == 0:")],
+      base="seeded_neutral/N29", tests="fail", note="the even root is negated when the sign bit is clear"),
+    B("n29-root-helper-returns-odd-root", ["C15", "C14"], [(ED, "    if x % 2 != 0: x = Q-x\n    # postcondition", "    if x % 2 == 0: x = Q-x\n    # postcondition")],
+      base="seeded_neutral/N29", tests="fail", note="the postcondition 'x is even' the decoder relies on no longer holds"),
+    B("n29-oncurve-compares-wrong-square", ["C05"], [(ED, "    if (x*x - xx) % Q != 0:\n        raise NotOnCurve", "    if (x*x + xx) % Q != 0:\n        raise NotOnCurve")],
+      base="seeded_neutral/N29", tests="fail", note="the shortcut on-curve test compares x*x with -xx"),
+    B("n29-helper-returns-numerator-as-square", ["C05", "C15"], [(ED, "    return x, xx\n", "    return x, (y*y-1)\n")],
+      base="seeded_neutral/N29", tests="fail", note="the second component handed to the on-curve shortcut is not the square the root solves for"),
     # ---- right-to-left iterative ladder (result + r*addend = n*P)
     N("p-rtl-ladder", [(_ITER[0][0], _ITER[0][1], _RTL), _ITER[1]], props=["C13", "C12", "C05", "C14", "C01", "C03"],
       note="behaviour-preserving at the element API (to_bytes normalises); the projective representation differs"),
